@@ -546,11 +546,11 @@ type skxWire struct {
 	// DHE
 	P, G, Ys *big.Int
 	// signature
-	HasAlg  bool
-	HashB   byte
-	SigB    byte
-	Sig     []byte
-	HasSig  bool
+	HasAlg   bool
+	HashB    byte
+	SigB     byte
+	Sig      []byte
+	HasSig   bool
 	SigWhole []byte // everything after the params (algorithm bytes + length + signature)
 }
 
@@ -619,12 +619,12 @@ func parseEncryptedExtensions(body []byte) ([]extn, error) {
 
 type wr struct{ b []byte }
 
-func (w *wr) u8(v int)        { w.b = append(w.b, byte(v)) }
-func (w *wr) u16(v int)       { w.b = append(w.b, byte(v>>8), byte(v)) }
-func (w *wr) u24(v int)       { w.b = append(w.b, byte(v>>16), byte(v>>8), byte(v)) }
-func (w *wr) raw(p []byte)    { w.b = append(w.b, p...) }
-func (w *wr) vec8(p []byte)   { w.u8(len(p)); w.raw(p) }
-func (w *wr) vec16(p []byte)  { w.u16(len(p)); w.raw(p) }
+func (w *wr) u8(v int)            { w.b = append(w.b, byte(v)) }
+func (w *wr) u16(v int)           { w.b = append(w.b, byte(v>>8), byte(v)) }
+func (w *wr) u24(v int)           { w.b = append(w.b, byte(v>>16), byte(v>>8), byte(v)) }
+func (w *wr) raw(p []byte)        { w.b = append(w.b, p...) }
+func (w *wr) vec8(p []byte)       { w.u8(len(p)); w.raw(p) }
+func (w *wr) vec16(p []byte)      { w.u16(len(p)); w.raw(p) }
 func (w *wr) ext(t int, d []byte) { w.u16(t); w.vec16(d) }
 
 // buildClientHello serialises a ClientHello handshake message (header included) from the decoded view.
